@@ -40,7 +40,7 @@ CONSTS = [0, 1, -7, 2.5, -0.001, 1e300, 1e-300, True, False, datetime.datetime(2
           datetime.timedelta(days=1, seconds=5), 123456789012]
 
 
-ARGFORMS = ['-1', '+2', '(A2)', 'A1%', '-B1', '"x"', '"a*"', 'A1+1', 'SUM(A1:A2)', 'TRUE', '1.5', '""', 'A1', '-A1%', '(1+2)*3', '">"&A1', 'Other!A1', 'C9', '1=1', '2*-3', 'B:B', 'A1:A2', 'ZZZZ1', 'Other!A:A', 'A1:B']
+ARGFORMS = ['">007"', '"<=010"', '"<>00"', '">1.50"', '"=007"', '-1', '+2', '(A2)', 'A1%', '-B1', '"x"', '"a*"', 'A1+1', 'SUM(A1:A2)', 'TRUE', '1.5', '""', 'A1', '-A1%', '(1+2)*3', '">"&A1', 'Other!A1', 'C9', '1=1', '2*-3', 'B:B', 'A1:A2', 'ZZZZ1', 'Other!A:A', 'A1:B']
 ARGTEMPLATES = ['=SUMIF(A1:A2,{x},B1:B2)', '=SUMIF(A1:A2,{x})', '=COUNTIFS(A1:A2,{x})', '=SUMIFS(B1:B2,A1:A2,{x})', '=AVERAGEIFS(B1:B2,A1:A2,{x})', '=IF({x},1,2)',
                 '=IF(1,{x},2)', '=ROUND({x},1)', '=ROUND(2.5,{x})', '=LEFT("abc",{x})', '=MID("abcdef",{x},2)', '=VLOOKUP({x},A1:B2,2,0)', '=INDEX(A1:B2,{x},1)',
                 '=MATCH({x},A1:A2,0)', '=SUM({x},1)', '=MAX({x},A1)', '=IFERROR({x},0)', '=DATE(2020,{x},1)', '=AND({x},TRUE)', '=CONCATENATE({x},"z")',
@@ -103,8 +103,31 @@ def gen_recipe(rng, family=None):
 
 def cell_value(v):
     if isinstance(v, (list, tuple)):
+        if v[0] == 'dtf':
+            from openpyxl.worksheet.formula import DataTableFormula
+            return DataTableFormula(ref='A1:B2', r1='C1', dt2D=False)
         return CONSTS[v[1]] if v[0] == 'const' else v[1]
     return v
+
+
+def shape_recipes():
+    """Workbook SHAPES decided by the oracle alone (the modelled layers say nothing about them): long chains of dependent cells, very long
+    digit strings, many unary signs, joined areas, a cell value of a foreign type, a spilling COLUMN(area).  'known' names the recorded
+    finding whose failure text ('expect') such a workbook is allowed to show."""
+    def wb(cells, **kw):
+        cells = dict(cells)
+        cells.setdefault('C1', '=1+1')
+        return dict({'family': 'shapes', 'titles': ['Main'], 'cells': cells, 'probe': cells['C1'], 'oracle_only': True}, **kw)
+    back = lambda n: dict([('A%d' % i, '=A%d+1' % (i + 1)) for i in range(1, n)] + [('A%d' % n, 1)])          # A1 needs A2 needs A3 ...
+    fwd = lambda n: dict([('A1', 1)] + [('A%d' % i, '=A%d+1' % (i - 1)) for i in range(2, n + 1)])              # a running total
+    return [wb(back(120)), wb(back(260)), wb(back(700)), wb(fwd(150)), wb(fwd(450)),
+            wb(fwd(700), known='evaluation_recursion_on_long_dependency_chain', expect='not evaluable: RecursionError'),
+            wb({'A1': '=' + '9' * 5000}), wb({'A1': '=A' + '1' * 5000}), wb({'A1': '=1e' + '1' * 5000}), wb({'A1': '=' + '9' * 5000 + '.5'}),
+            wb({'A1': '=' + '-' * 90 + '1'}),
+            wb({'A1': '=' + '-' * 250 + '1'}, known='many_unary_signs_nest_too_many_parentheses', expect='too many nested parentheses'),
+            wb({'B1': 1, 'B2': 2, 'B3': 3, 'D1': 'x', 'D2': 'y', 'D3': 'z', 'E1': 7, 'E2': 8, 'E3': 9, 'A1': '=INDEX(B1:B3&D1:D3&E1:E3,2)', 'A2': '=INDEX(B1:B3&D1:D3&E1:E3&B1:B3,1)'}),
+            wb({'A1': ['dtf'], 'B1': 1}),
+            wb({'D5': '=COLUMN(A1:C1)', 'E5': 7, 'F5': 8}, known='column_of_an_area_spills_over_stored_constants', expect='constant cell E5 holds 7')]
 
 
 def write_xlsx(rc, path):
@@ -183,6 +206,8 @@ def run_workbook(rc, k=[0]):
                     if v1[0] == 'exc' and v1[1] in ('NameError', 'UnboundLocalError', 'RecursionError', 'SyntaxError'):
                         fail = fail or 'member of cell %s is not evaluable: %s' % (a, v1[1])
                     v = cell_value(rc['cells'][a])
+                    if type(v).__module__.startswith('openpyxl'):
+                        continue
                     if not (isinstance(v, str) and v.startswith('=')) and v1 != ('ok', v) and not (isinstance(v, datetime.time) or isinstance(v, datetime.timedelta)):
                         if not (isinstance(v, datetime.date) and not isinstance(v, datetime.datetime)):      # openpyxl returns a date as datetime
                             fail = fail or 'constant cell %s holds %r, the class returns %r' % (a, v, v1)
@@ -220,7 +245,7 @@ def make_case(rc):
     if io is None:
         return None
     c = {'recipe': rc, 'key': rc, 'nontrivial': rc['family'] != 'valid' or len(rc['titles']) > 1, 'oracle_fail': fail, 'seconds': dt, 'io': io}
-    c['coq'] = None if io == 'TIMEOUT' else 'CW %s (%s) %s' % (C.cstr(rc['probe']), io, C.cbool(fail is None))
+    c['coq'] = None if io == 'TIMEOUT' or rc.get('oracle_only') else 'CW %s (%s) %s' % (C.cstr(rc['probe']), io, C.cbool(fail is None))
     return c
 
 
@@ -240,6 +265,11 @@ def corpus():
     for t in TEXTS:
         rc = gen_recipe(rng, 'valid')
         rc['cells']['K1'] = ['text', t]
+        rs.append(rc)
+    for f in ['=SUMIF(A1:A2,">007")', '=COUNTIFS(A1:A2,"<=010")', '=SUMIFS(B1:B2,A1:A2,"<>0012")', '=AVERAGEIFS(B1:B2,A1:A2,">=00")']:
+        rc = gen_recipe(rng, 'valid')          # a criterion number written with leading zeros (fixed by b21d900)
+        rc['cells']['C1'] = f
+        rc['probe'] = f
         rs.append(rc)
     for t in TITLES:
         rc = gen_recipe(rng, 'valid')
@@ -264,10 +294,10 @@ def run(R, tier):
     if any('Coq build failed' in b for b in R.broken):
         return
     n = 160 if tier == 'quick' else 3000
-    recipes = corpus()
+    recipes = corpus() + shape_recipes()
     af = argform_recipes()
     recipes += af if tier != 'quick' else R.rng.sample(af, 160)
-    while len(recipes) < n + len(corpus()):
+    while len(recipes) < n + len(corpus()) + len(shape_recipes()):
         recipes.append(gen_recipe(R.rng))
     cases = [c for c in (make_case(rc) for rc in recipes) if c is not None]
     R.extra['slowest_translation_s'] = round(max(c['seconds'] for c in cases), 2)
@@ -279,6 +309,14 @@ def run(R, tier):
     for c in cases[:2] + cases[-3:]:
         R.sample({'recipe': c['recipe'], 'outcome': c['io']})
     for c in cases:
+        if c['recipe'].get('oracle_only') and c['io'] != 'TIMEOUT':
+            R.count(c['key'], True)
+            rc, fail = c['recipe'], c['oracle_fail']
+            if fail and rc.get('known') and rc['expect'] in fail:
+                R.known(rc['known'])
+            elif fail:
+                R.violation('workbook shape: ' + fail, {'recipe': rc, 'input_found': True})
+            continue
         if c['coq'] is None:                   # wall-clock limit exceeded
             R.count(c['key'], True)
             if depth_of(c['recipe']['probe']) >= 4:
